@@ -111,8 +111,9 @@ def filter_specs(thorough):
             'ab/**/*.c', 'b/**']
     if thorough:
         pats += ['*/a', '**/a*', 'a/[ab]/*', 'a/b/**/*.c', '?/*', 'a/**/a/**/*.c', 'b/a/*', '[!a]/**']
-    excludes = [(), ('b',), ('b/',), ('*~',), ('a*',)]
-    extras = [(), ('*.h',), ('b/',), ('*',)]
+    # (the last ones: simple globs whose only metacharacter is a character class)
+    excludes = [(), ('b',), ('b/',), ('*~',), ('a*',), ('[bx]',), ('a[!.]/',)]
+    extras = [(), ('*.h',), ('b/',), ('*',), ('[.]h',), ('[ab]b',)]
     specs = []
     for n in (1, 2):
         for inc in itertools.combinations(pats, n):
